@@ -18,6 +18,7 @@ import (
 	"time"
 
 	"example.com/org/m/sub"
+	utime "example.com/org/m/utils/time"
 )
 
 type Zeta struct{ A Alpha }
@@ -65,6 +66,15 @@ type Index map[string]Entry
 type Node struct{ Children Nodes }
 type Entry struct{ Sub Index }
 
+// padding fields are fields; a user package that happens to be called time
+type Wire struct {
+	_    [3]byte
+	A    int
+	_    sub.Reserved
+	When utime.Stamp
+	All  []utime.Stamp
+}
+
 // a type reachable only through an ignored field is still part of the graph
 type WithIgnored struct {
 	A     int
@@ -85,6 +95,8 @@ type Audit struct {
 
 type AuditMeta struct{ N int }
 
+type Reserved struct{ R [4]uint16 }
+
 type Trail struct{ Events []Event }
 type Event struct{ At int }
 
@@ -103,6 +115,8 @@ func TestGovcHarness_Graph(t *testing.T) {
 	os.WriteFile(root+"/go.mod", []byte("module example.com/org/m\n\ngo 1.21\n"), 0o644)
 	os.MkdirAll(root+"/sub", 0o755)
 	os.WriteFile(root+"/sub/sub.go", []byte(govcGraphSub), 0o644)
+	os.MkdirAll(root+"/utils/time", 0o755)
+	os.WriteFile(root+"/utils/time/t.go", []byte("package time\n\nimport stdtime \"time\"\n\ntype Stamp stdtime.Time\n"), 0o644)
 	src := govcGraphSrc
 	// pointers are refused by design: keep the pointer field out of the analysed struct
 	os.WriteFile(root+"/root.go", []byte(src), 0o644)
@@ -133,8 +147,8 @@ func TestGovcHarness_Graph(t *testing.T) {
 		}
 		last = n.Obj()
 	}
-	if len(ana.Source) != 18 {
-		fail("%d source declarations reported, want 18", len(ana.Source))
+	if len(ana.Source) != 19 {
+		fail("%d source declarations reported, want 19", len(ana.Source))
 	}
 	// faithfulness of every node of the table, and closure under links
 	seen := map[Type]bool{}
@@ -202,6 +216,17 @@ func TestGovcHarness_Graph(t *testing.T) {
 		case *Basic:
 			if x.B != key.Underlying() {
 				fail("basic %s: kind %s", key, x.B)
+			}
+		}
+	}
+	// a time type declared outside the standard package time is a Named node over the predefined time, and it
+	// converts back to itself (not to time.Time)
+	for key, node := range ana.Types {
+		if nt, ok := key.(*types.Named); ok && nt.Obj().Name() == "Stamp" {
+			cases++
+			nn, isNamed := node.(*Named)
+			if !isNamed || !isTimeNode(nn.Underlying) || !types.Identical(node.Type(), key) {
+				fail("utils/time.Stamp is described by %T converting back to %s", node, node.Type())
 			}
 		}
 	}
